@@ -18,11 +18,15 @@ import (
 type bc36Op struct {
 	id, dep uint32
 	excl    bool
+	close   bool // the stream ends (it leaves the stream table; other streams may still name it as their parent)
 }
 
 func bc36Cyclic(streams map[uint32]*stream) (uint32, bool) {
 	n := len(streams)
 	for id, st := range streams {
+		if st == nil {
+			continue
+		}
 		p := st.parent
 		for steps := 0; p != nil; steps++ {
 			if p == st || steps > n {
@@ -59,8 +63,9 @@ func TestBoundedC36PriorityTree(t *testing.T) {
 	var ops []bc36Op
 	for _, id := range ids {
 		for _, d := range deps {
-			ops = append(ops, bc36Op{id, d, false}, bc36Op{id, d, true})
+			ops = append(ops, bc36Op{id: id, dep: d}, bc36Op{id: id, dep: d, excl: true})
 		}
+		ops = append(ops, bc36Op{id: id, close: true})
 	}
 	cases, distinct, nfail, samples := 0, 0, 0, 0
 	shapes := map[string]bool{}
@@ -68,19 +73,25 @@ func TestBoundedC36PriorityTree(t *testing.T) {
 	rec = func(seq []bc36Op) {
 		// replay the sequence on a fresh forest
 		streams := map[uint32]*stream{}
+		all := map[uint32]*stream{} // every stream object ever created, closed ones included
 		for _, id := range ids {
 			streams[id] = &stream{id: id, state: stateOpen}
+			all[id] = streams[id]
 		}
 		bad := ""
 		for i, op := range seq {
-			adjustStreamPriority(streams, op.id, PriorityParam{StreamDep: op.dep, Exclusive: op.excl, Weight: 15})
-			if id, cyc := bc36Cyclic(streams); cyc {
-				bad = fmt.Sprintf("after operation %d stream %d is its own ancestor (tree: %s)", i+1, id, bc36Shape(streams, ids))
+			if op.close {
+				delete(streams, op.id)
+			} else {
+				adjustStreamPriority(streams, op.id, PriorityParam{StreamDep: op.dep, Exclusive: op.excl, Weight: 15})
+			}
+			if id, cyc := bc36Cyclic(all); cyc {
+				bad = fmt.Sprintf("after operation %d stream %d is its own ancestor (tree: %s)", i+1, id, bc36Shape(all, ids))
 				break
 			}
 		}
 		cases++
-		sh := bc36Shape(streams, ids)
+		sh := bc36Shape(all, ids)
 		if !shapes[sh] {
 			shapes[sh] = true
 			distinct++
@@ -104,5 +115,5 @@ func TestBoundedC36PriorityTree(t *testing.T) {
 		}
 	}
 	rec(nil)
-	fmt.Printf("BOUNDED-CASES n=%d distinct=%d bound=every sequence of 0..%d PRIORITY operations over %d open streams (each operation: any stream, depending on the root, any stream incl. itself or an unknown stream, exclusive or not), from the parentless forest; distinct = dependency trees reached\n", cases, distinct, maxOps, nStreams)
+	fmt.Printf("BOUNDED-CASES n=%d distinct=%d bound=every sequence of 0..%d PRIORITY operations over %d open streams (each operation: a PRIORITY for any stream - depending on the root, on any stream incl. itself, a closed or an unknown stream, exclusive or not - or the end of a stream, which leaves the table but may still be named as a parent), from the parentless forest; distinct = dependency trees reached\n", cases, distinct, maxOps, nStreams)
 }
